@@ -220,9 +220,11 @@ def run_one(mu, j, par):
 def cmd_run(a):
     idx = json.load(open(os.path.join(MDIR, "index.json")))
     done = set()
-    rp = os.path.join(MDIR, "results.jsonl")
+    rp = os.path.join(MDIR, a.out)
     if os.path.exists(rp):
         for l in open(rp): done.add(json.loads(l)["id"])
+    if a.props:
+        for m in idx: m["props"] = a.props.split(",")
     todo = [m for m in idx if m["id"] not in done]
     if a.only: todo = [m for m in todo if a.only in m["file"]]
     if a.ids: todo = [m for m in idx if m["id"] in a.ids.split(",")]
@@ -257,6 +259,7 @@ if __name__ == "__main__":
     g = sub.add_parser("gen"); g.add_argument("--per-file", type=int, default=12); g.add_argument("--seed", type=int, default=1)
     r = sub.add_parser("run"); r.add_argument("--jobs", type=int, default=2); r.add_argument("--par", type=int, default=6)
     r.add_argument("--only"); r.add_argument("--ids"); r.add_argument("--limit", type=int)
+    r.add_argument("--props", help="comma list: run these checks instead of the anchored ones"); r.add_argument("--out", default="results.jsonl")
     sub.add_parser("report")
     a = ap.parse_args()
     {"gen": cmd_gen, "run": cmd_run, "report": cmd_report}[a.cmd](a)
